@@ -27,3 +27,6 @@ for cd in cli.load_contracts(pid):
             for o in r.obligations:
                 if o.status == "unknown":
                     print("UNK", o.label, o.path, "|", o.note[:200], o.time_s)
+        if os.environ.get("DBG_LABELS"):
+            from collections import Counter
+            for k, v in Counter((o.label, o.status) for o in r.obligations).items(): print("LAB", k, v)
